@@ -109,6 +109,29 @@ func (c *tqClient) Batch(remote string, bReq *batchRequest) (*BatchResponse, err
 		return nil, lfshttp.NewStatusCodeError(res)
 	}
 
+	// A JSON null in place of an object or of an action decodes to a nil
+	// pointer; drop such entries rather than dereference them here or
+	// later in the transfer queue.
+	objects := bRes.Objects[:0]
+	for _, obj := range bRes.Objects {
+		if obj != nil {
+			objects = append(objects, obj)
+		}
+	}
+	bRes.Objects = objects
+	for _, obj := range bRes.Objects {
+		for rel, a := range obj.Actions {
+			if a == nil {
+				delete(obj.Actions, rel)
+			}
+		}
+		for rel, a := range obj.Links {
+			if a == nil {
+				delete(obj.Links, rel)
+			}
+		}
+	}
+
 	for _, obj := range bRes.Objects {
 		obj.Missing = missing[obj.Oid]
 		for _, a := range obj.Actions {
